@@ -204,3 +204,11 @@ _add_family(globals(), _ss, 'structstep', lambda case, impl: _ss.oracle(case, im
 # container-valued variables: a view/update computed from the committed snapshot must not change afterwards
 from harness import valuesnap as _vs               # noqa: E402
 _add_family(globals(), _vs, 'valuesnap', _vs.oracle, share=0.15)
+
+# steps of compartments that reach the engine through Composite.merge / Composer.generate / a store: the steps of
+# one dependency layer still see one state and the result does not depend on the declaration order
+from harness import dynflow as _df                  # noqa: E402
+_add_family(globals(), _df, 'dynflow', lambda case, impl: _df.oracle(case, impl, who=('values',)), share=0.06)
+# processes sharing one schema object, one of them with an override: listing order must not matter
+from harness import schemaleak as _sl               # noqa: E402
+_add_family(globals(), _sl, 'schemaleak', lambda case, impl: _sl.oracle(case, impl, who=('values',)), share=0.04)
